@@ -58,6 +58,10 @@ def rename(node, mapping):
 
 def discover(fn, role):
     name, kind = role[0], role[1]
+    try:
+        env = sgrep.lets(fn["body"])  # the scrutinee / iterated expression may be named by a `let` first
+    except Exception:
+        env = None
     if kind == "param":
         ps = sgrep.params(fn)
         i = role[2]
@@ -86,11 +90,11 @@ def discover(fn, role):
         pat = sgrep.pattern(role[2])
         ctor = "Ok" if kind == "oklet" else "Err"
         for n in walk(fn["body"]):
-            if n["k"] == "Let" and sgrep.match(pat, n["e"], {}):
+            if n["k"] == "Let" and sgrep.match(pat, n["e"], {}, env):
                 p = n["pat"]
                 if p["k"] == "PTupleStruct" and last(p["path"]) == ctor and p["elems"] and p["elems"][0]["k"] == "PIdent":
                     return p["elems"][0]["name"]
-            if n["k"] == "Match" and sgrep.match(pat, n["scrut"], {}):
+            if n["k"] == "Match" and sgrep.match(pat, n["scrut"], {}, env):
                 for a in n["arms"]:
                     p = a["pat"]
                     if p["k"] == "PTupleStruct" and last(p["path"]) == ctor and p["elems"] and p["elems"][0]["k"] == "PIdent":
@@ -99,11 +103,11 @@ def discover(fn, role):
     if kind in ("somelet", "whilelet"):
         pat = sgrep.pattern(role[2])
         for n in walk(fn["body"]):
-            if n["k"] == "Let" and sgrep.match(pat, n["e"], {}):
+            if n["k"] == "Let" and sgrep.match(pat, n["e"], {}, env):
                 p = n["pat"]
                 if p["k"] == "PTupleStruct" and last(p["path"]) == "Some" and p["elems"] and p["elems"][0]["k"] == "PIdent":
                     return p["elems"][0]["name"]
-            if n["k"] == "Local" and n["else"] is not None and n["init"] is not None and sgrep.match(pat, n["init"], {}):
+            if n["k"] == "Local" and n["else"] is not None and n["init"] is not None and sgrep.match(pat, n["init"], {}, env):
                 p = n["pat"]
                 if p["k"] == "PTupleStruct" and last(p["path"]) == "Some" and p["elems"] and p["elems"][0]["k"] == "PIdent":
                     return p["elems"][0]["name"]
@@ -111,9 +115,9 @@ def discover(fn, role):
     if kind == "forvar":
         pat = sgrep.pattern(role[2])
         for n in walk(fn["body"]):
-            if n["k"] == "For" and sgrep.match(pat, n["iter"], {}) and n["pat"]["k"] in ("PIdent",):
+            if n["k"] == "For" and sgrep.match(pat, n["iter"], {}, env) and n["pat"]["k"] in ("PIdent",):
                 return n["pat"]["name"]
-            if n["k"] == "For" and sgrep.match(pat, n["iter"], {}) and n["pat"]["k"] == "PRef" and n["pat"]["pat"]["k"] == "PIdent":
+            if n["k"] == "For" and sgrep.match(pat, n["iter"], {}, env) and n["pat"]["k"] == "PRef" and n["pat"]["pat"]["k"] == "PIdent":
                 return n["pat"]["pat"]["name"]
         return None
     raise ValueError(kind)
